@@ -32,25 +32,31 @@ type Opt struct {
 // the full-box header and with hdlr as its first child. boxwalk assumes the ISO form; set to 0 to avoid it.
 var QuickTimeMetaPercent = 5
 
-// LargeSizePercent is the probability (percent) that a non-mdat box gets the 64-bit size header form
-// (mdat: 10 times this value). ISO/IEC 14496-12 4.2 allows largesize for every box.
-var LargeSizePercent = 1
+// LargeSizePercent is the probability (percent) that the box returned by Box gets the 64-bit size header
+// form (mdat boxes anywhere: 10 times this value); LargeSizeNestedPer10k is the probability (per 10000) for
+// every other box, i.e. children and the top-level boxes of File. ISO/IEC 14496-12 4.2 allows largesize for
+// every box; mp4ff (at the pinned revision) rejects a container that has a largesize child other than mdat,
+// so the nested probability is kept low in order not to lose most of the deep structures to this one reason.
+var (
+	LargeSizePercent      = 1
+	LargeSizeNestedPer10k = 3
+)
 
 // ---------------------------------------------------------------------------------------------
 // byte writer
 
 type wr struct{ b []byte }
 
-func (w *wr) u8(v int) *wr        { w.b = append(w.b, byte(v)); return w }
-func (w *wr) u16(v int) *wr       { w.b = append(w.b, byte(v>>8), byte(v)); return w }
-func (w *wr) u24(v int) *wr       { w.b = append(w.b, byte(v>>16), byte(v>>8), byte(v)); return w }
-func (w *wr) u32(v uint32) *wr    { w.b = binary.BigEndian.AppendUint32(w.b, v); return w }
-func (w *wr) u64(v uint64) *wr    { w.b = binary.BigEndian.AppendUint64(w.b, v); return w }
-func (w *wr) i32(v int64) *wr     { return w.u32(uint32(int32(v))) }
-func (w *wr) raw(p []byte) *wr    { w.b = append(w.b, p...); return w }
-func (w *wr) str(s string) *wr    { w.b = append(w.b, s...); return w }
-func (w *wr) cstr(s string) *wr   { w.b = append(w.b, s...); w.b = append(w.b, 0); return w }
-func (w *wr) zeros(n int) *wr     { w.b = append(w.b, make([]byte, n)...); return w }
+func (w *wr) u8(v int) *wr      { w.b = append(w.b, byte(v)); return w }
+func (w *wr) u16(v int) *wr     { w.b = append(w.b, byte(v>>8), byte(v)); return w }
+func (w *wr) u24(v int) *wr     { w.b = append(w.b, byte(v>>16), byte(v>>8), byte(v)); return w }
+func (w *wr) u32(v uint32) *wr  { w.b = binary.BigEndian.AppendUint32(w.b, v); return w }
+func (w *wr) u64(v uint64) *wr  { w.b = binary.BigEndian.AppendUint64(w.b, v); return w }
+func (w *wr) i32(v int64) *wr   { return w.u32(uint32(int32(v))) }
+func (w *wr) raw(p []byte) *wr  { w.b = append(w.b, p...); return w }
+func (w *wr) str(s string) *wr  { w.b = append(w.b, s...); return w }
+func (w *wr) cstr(s string) *wr { w.b = append(w.b, s...); w.b = append(w.b, 0); return w }
+func (w *wr) zeros(n int) *wr   { w.b = append(w.b, make([]byte, n)...); return w }
 func (w *wr) uN(v uint64, n int) *wr { // n bytes, big endian
 	for i := n - 1; i >= 0; i-- {
 		w.b = append(w.b, byte(v>>(8*uint(i))))
@@ -91,10 +97,13 @@ type gen struct {
 	depth int
 	// hooks replace the generator of a box type (used by File to keep boxes mutually consistent);
 	// a hook returns a complete box.
-	hooks map[string]func(g *gen) []byte
-	trk   *track // current track (File builders)
-	// noJunk suppresses interleaved free/skip/uuid/unknown boxes (used where a File builder has to find boxes again)
-	noJunk bool
+	hooks   map[string]func(g *gen) []byte
+	trk     *track // current track (File builders)
+	movieTS uint32 // movie timescale (File builders)
+	top     bool   // the next box to be wrapped is the one Box returns
+	// ambient facts that boxes further down must agree with
+	origFormat string   // inside encv/enca: the sample entry type the configuration box belongs to (frma)
+	enc        *encSpec // inside sinf: protection scheme and track encryption defaults (schm, tenc)
 }
 
 func (g *gen) rng(label string, lo, hi int) int {
@@ -105,14 +114,33 @@ func (g *gen) rng(label string, lo, hi int) int {
 }
 
 // pct is true with probability p percent; it shrinks towards false.
-func (g *gen) pct(label string, p int) bool {
-	if p <= 0 {
+func (g *gen) pct(label string, p int) bool { return g.chance(label, p*100) }
+
+// chance is true with probability n/10000 (resolution 1/65536). rapid's integer generators are biased
+// towards small values and the ends of the range, its Bool is not: the decision compares a uniform 16-bit
+// number x, drawn bit by bit from the top, with a threshold and stops at the first bit that decides (two
+// draws on average). All bits false means x = 0 and the answer false, which is where rapid shrinks to.
+func (g *gen) chance(label string, n int) bool {
+	if n <= 0 {
 		return false
 	}
-	if p >= 100 {
+	if n >= 10000 {
 		return true
 	}
-	return rapid.IntRange(0, 99).Draw(g.t, label) >= 100-p
+	th := 65536 - (n*65536+5000)/10000 // true iff x >= th
+	if th > 65535 {
+		th = 65535
+	}
+	if th < 1 {
+		th = 1
+	}
+	for bit := 15; bit >= 0; bit-- {
+		xb := rapid.Bool().Draw(g.t, label)
+		if tb := th>>uint(bit)&1 == 1; xb != tb {
+			return xb
+		}
+	}
+	return true
 }
 
 // hostile is true with probability p percent, and only in hostile mode.
@@ -252,9 +280,9 @@ func (g *gen) fourcc(label string) string {
 }
 
 func (g *gen) lang(label string) int {
-	s := g.pick(label, "und", "eng", "swe", "fra", "zho", "```", "zzz", "mul")
+	s := g.pick(label, "und", "eng", "swe", "fra", "zho", "zzz", "mul")
 	if g.hostile(label, 10) {
-		return g.pickInt(label+":bad", 0, 0x7fff, 0xffff, 0x8000)
+		return g.pickInt(label+":bad", 0, 0x7fff, 0xffff, 0x8000, 0x0400) // 0: three characters 0x60
 	}
 	return int(s[0]-0x60)<<10 | int(s[1]-0x60)<<5 | int(s[2]-0x60)
 }
@@ -274,12 +302,17 @@ func mkLarge(typ string, payload []byte) []byte {
 }
 
 // wrap puts a header in front of a payload; occasionally the 64-bit size form.
-func (g *gen) wrap(typ string, payload []byte) []byte {
-	p := LargeSizePercent
-	if typ == "mdat" {
-		p *= 10
+func (g *gen) wrap(typ string, payload []byte) []byte { return g.wrapTop(typ, payload, false) }
+
+func (g *gen) wrapTop(typ string, payload []byte, top bool) []byte {
+	p := LargeSizeNestedPer10k
+	switch {
+	case typ == "mdat":
+		p = LargeSizePercent * 1000
+	case top:
+		p = LargeSizePercent * 100
 	}
-	if g.pct("largesize", p) {
+	if g.chance("largesize", p) {
 		return mkLarge(typ, payload)
 	}
 	return mk(typ, payload)
@@ -297,16 +330,27 @@ func (g *gen) box(typ string) []byte {
 
 // plainBox is box without the hooks.
 func (g *gen) plainBox(typ string) []byte {
+	top := g.top
+	g.top = false
 	if _, ok := grammar[typ]; ok {
 		g.depth++
 		defer func() { g.depth-- }()
+		switch typ {
+		case "encv", "enca":
+			defer func(old string) { g.origFormat = old }(g.origFormat)
+		case "sinf":
+			if g.enc == nil {
+				g.enc = g.drawEnc()
+				defer func() { g.enc = nil }()
+			}
+		}
 		kids := g.drawKids(typ)
-		return g.wrap(typ, g.containerPayload(typ, kids))
+		return g.wrapTop(typ, g.containerPayload(typ, kids), top)
 	}
 	if f, ok := leaves[typ]; ok {
-		return g.wrap(typ, f(g))
+		return g.wrapTop(typ, f(g), top)
 	}
-	return g.wrap(typ, g.bytes("unknown:"+typ, 0, 24))
+	return g.wrapTop(typ, g.bytes("unknown:"+typ, 0, 24), top)
 }
 
 // containerPayload puts the prefix of a container type in front of its arranged children.
@@ -343,12 +387,20 @@ func (g *gen) drawKids(parent string) []kid {
 		}
 		for i := 0; i < n; i++ {
 			typ := g.alt(label+"#"+strconv.Itoa(ri), r.Type)
+			if parent == "encv" || parent == "enca" {
+				if f, ok := origFormats[typ]; ok {
+					g.origFormat = g.pick(parent+":format", f...)
+				}
+			}
 			b := g.box(typ)
 			kids = append(kids, kid{string(b[4:8]), b})
 		}
 	}
 	return kids
 }
+
+// origFormats: configuration box -> sample entry types it occurs in (for frma in encv/enca).
+var origFormats = map[string][]string{"avcC": {"avc1", "avc3"}, "hvcC": {"hvc1", "hev1"}, "esds": {"mp4a"}, "dac3": {"ac-3"}, "dec3": {"ec-3"}}
 
 // alt resolves "a*3|b*1|c" to one of the alternatives.
 func (g *gen) alt(label, spec string) string {
@@ -401,7 +453,7 @@ func (g *gen) arrange(parent string, kids []kid) []byte {
 		kids = shuffled
 	}
 	var out []byte
-	junk := !g.noJunk && !noJunkIn[parent] && g.pct(parent+":junk", 6)
+	junk := !noJunkIn[parent] && g.pct(parent+":junk", 6)
 	for i, k := range kids {
 		if junk && g.pct(parent+":junk@"+strconv.Itoa(i), 40) {
 			out = append(out, g.junk()...)
@@ -467,7 +519,7 @@ func ContainerTypes() []string {
 // children from the grammar (recursively, depth-bounded). Unknown typ gives a box with a random payload of
 // 0..24 bytes.
 func Box(t *rapid.T, typ string, o Opt) []byte {
-	g := &gen{t: t, o: o}
+	g := &gen{t: t, o: o, top: true}
 	if len(typ) != 4 {
 		typ = (typ + "    ")[:4]
 	}
